@@ -98,42 +98,74 @@ def allocation_state(chk, prog, c):
     on every path to its return, store into the header's needs-trace flag the constant
     `<T as Collect>::NEEDS_TRACE` of the very type it allocates (or `true`, which is merely conservative). A block
     flagged `false` for a pointer-holding type is blackened without ever being traced: its children are lost."""
-    from gcv import cfg as _cfg
+    from gcv import cfg as _cfg, layout_terms
     prog.edges()
     allocs = list(prog.callers_of("gc_ptr::GcPtr::alloc"))
     chk.floor("GcPtr::alloc-callers", len(allocs), 1)
+    # which functions store their argument into the flag is read off their effect (C17's encoding analysis), so a
+    # constructor taking the flag counts as much as the setter does
+    est = layout_terms.needs_trace_establishers(prog)
+    chk.floor("needs-trace-establishers", len(est), 1)
+    chk.extra.setdefault("needs_trace_establishers", {})[c] = sorted(est)
+
+    def judge(x, a_ty, own_param):
+        """(good?, problem) for one call of an establisher; the flag argument must be the NEEDS_TRACE constant of the
+        allocated type (`a_ty`, or the allocator's own type parameter when the call sits inside GcPtr::alloc)."""
+        arg = x.term["args"][est[x.callee]]
+        if arg.get("k") == "const" and "uneval" in arg and arg["uneval"]["def"] == "collect::Collect::NEEDS_TRACE":
+            t = [a["ty"] for a in arg["uneval"]["args"] if "ty" in a][:1]
+            want = own_param if own_param is not None else a_ty
+            if t and want is not None and t[0] != want:
+                return False, "needs-trace flag taken from `%s`, but the block is allocated for `%s`" % (
+                    arg["uneval"]["s"], prog.ty(want)["s"])
+            return True, None
+        if arg.get("k") == "const" and arg.get("v", {}).get("int") == 1:
+            return True, None
+        return False, "needs-trace flag set from %s, not from the allocated type's NEEDS_TRACE constant" % (
+            arg.get("uneval", {}).get("s") or ("the constant false" if arg.get("k") == "const" else "a computed value"))
+
+    def sites_in(body, fn, a_ty, own_param):
+        sets = [x for x in prog.calls_from(fn) if x.callee in est]
+        dom = _cfg.dominators(body, unwind=False)
+        rets = [r for r in _cfg.return_blocks(body) if not body["blocks"][r].get("c")]
+        probs, good = [], []
+        for x in sets:
+            ok, p = judge(x, a_ty, own_param)
+            if ok:
+                good.append(x.bb)
+            else:
+                probs.append(p)
+        covered = bool(good) and all(any(g in dom[r] for g in good) for r in rets)
+        return sets, probs, covered
+
+    # inside the allocator itself the allocated type is its own first type parameter
+    alloc_keys = prog.seed_n.get("gc_ptr::GcPtr::alloc") or []
+    inner = ([], [], False)
+    if alloc_keys:
+        ab = prog.bodies[alloc_keys[0]]
+        own = None
+        for tid in ab["locals"]:
+            t = prog.ty(tid)
+            if t.get("k") == "adt" and t.get("def") == "gc_ptr::GcPtr" and t.get("args") and "ty" in t["args"][0]:
+                own = t["args"][0]["ty"]
+                break
+        inner = sites_in(ab, "gc_ptr::GcPtr::alloc", None, own)
     for e in allocs:
-        body = prog.body_of(e.caller_raw)
         a_ty = None
         for a in e.term["f"].get("args", []):
             if "ty" in a:
                 a_ty = a["ty"]
                 break
-        sets = [x for x in prog.calls_from(e.caller) if x.callee == "gc_ptr::GcHeader::set_needs_trace"]
-        dom = _cfg.dominators(body, unwind=False)
-        rets = [r for r in _cfg.return_blocks(body) if not body["blocks"][r].get("c")]
-        probs = []
-        good = []
-        for x in sets:
-            arg = x.term["args"][1]
-            if arg.get("k") == "const" and "uneval" in arg and arg["uneval"]["def"] == "collect::Collect::NEEDS_TRACE":
-                t = [a["ty"] for a in arg["uneval"]["args"] if "ty" in a][:1]
-                if t and a_ty is not None and t[0] != a_ty:
-                    probs.append("needs-trace flag taken from `%s`, but the block is allocated for `%s`" % (
-                        arg["uneval"]["s"], prog.ty(a_ty)["s"]))
-                else:
-                    good.append(x.bb)
-            elif arg.get("k") == "const" and arg.get("v", {}).get("int") == 1:
-                good.append(x.bb)
-            else:
-                probs.append("needs-trace flag set from %s, not from the allocated type's NEEDS_TRACE constant" % (
-                    arg.get("uneval", {}).get("s") or ("the constant false" if arg.get("k") == "const" else "a computed value")))
-        if not probs and not (good and all(any(g in dom[r] for g in good) for r in rets)):
+        sets, probs, covered = sites_in(prog.body_of(e.caller_raw), e.caller, a_ty, None)
+        if not sets:
+            # the caller does not touch the flag: what the allocator itself established stands
+            probs, covered = list(inner[1]), inner[2]
+        if not probs and not covered:
             probs.append("a path returns the freshly allocated block without setting its needs-trace flag (it stays false)")
         chk.inst("allocation-sets-needs-trace", "%s[%s]" % (e.caller, c), not probs,
                  detail="; ".join(probs) + ": an object of a pointer-holding type flagged needs-trace = false is blackened "
                         "without being traced" if probs else "", loc="%s:%s" % (e.file, e.line),
-                 sample={"allocator": e.caller, "flag_sites": len(sets)})
+                 sample={"allocator": e.caller, "flag_sites": len(sets), "flag_sites_in_allocator": len(inner[0])})
 
 
 def initial_collector_state(chk, prog, T, c):
